@@ -364,8 +364,93 @@ def check_tbl(eng, run):
     run.ob("C01.tbl", "FixedSizePacketSerializer:read_exactly(size)", ok)
 
 
+# ------------------------------------------------------------------------------------------ C01.ws
+def check_ws(eng, run):
+    """The raw JSON framer and the document splitter must agree on what is inter-document whitespace: every byte that
+    the splitter's whitespace pattern absorbs *after* a document (so that it is handed back as remainder or swallowed)
+    must be skipped by the framer's byte dispatch when it arrives *before* the next document (no enclosure open, not in
+    a string) - otherwise the same stream frames differently depending on where a read ends."""
+    import re._parser as sre
+
+    db = eng.db
+    cls = db.classes.get("easynetwork.serializers.json._JSONParser")
+    if cls is None:
+        raise AnalysisError("anchor vanished: _JSONParser")
+    # whitespace table of the splitter
+    ws = None
+    for _, v in cls.field_values.get("_whitespaces_match", []):
+        for c in ast.walk(v):
+            if isinstance(c, ast.Call) and (dotted(c.func) or "").endswith("compile") and c.args and isinstance(c.args[0], ast.Constant) and isinstance(c.args[0].value, bytes):
+                try:
+                    parsed = sre.parse(c.args[0].value.decode("latin-1"))
+                    chars = set()
+                    for op, arg in parsed:
+                        if str(op) == "MAX_REPEAT":
+                            for op2, arg2 in arg[2]:
+                                if str(op2) == "IN":
+                                    chars |= {bytes([a]) for o, a in arg2 if str(o) == "LITERAL"}
+                    ws = chars or None
+                except Exception:  # noqa: BLE001
+                    ws = None
+    fn = cls.methods.get("raw_parse")
+    matches = [n for n in own_nodes(fn.node) if isinstance(n, ast.Match)] if fn else []
+    if ws is None or len(matches) != 1:
+        run.ob("C01.ws", "_JSONParser:whitespace-tables-agree", True, evaluated=False, reason="splitter pattern / framer dispatch not in an evaluable shape: rule skipped")
+        return
+    m = matches[0]
+    # abstract state S0: not inside a string, no enclosure opened yet
+    def guard_truth(g):
+        if g is None:
+            return True
+        t = ast.unparse(g).replace(" ", "")
+        if "enclosure_counter[b'\"']>0" in t:
+            return False
+        if t in ("len(enclosure_counter)==0", "notenclosure_counter"):
+            return True
+        if t.startswith("notescaped("):
+            return True
+        return None
+
+    bad = []
+    unknown = False
+    for w in sorted(ws):
+        chosen = None
+        for case in m.cases:
+            p = case.pattern
+            lits = []
+            if isinstance(p, ast.MatchValue) and isinstance(p.value, ast.Constant):
+                lits = [p.value.value]
+            elif isinstance(p, ast.MatchOr):
+                lits = [x.value.value for x in p.patterns if isinstance(x, ast.MatchValue) and isinstance(x.value, ast.Constant)]
+            wildcard = isinstance(p, ast.MatchAs) and p.pattern is None
+            if not (w in lits or wildcard):
+                continue
+            g = guard_truth(case.guard)
+            if g is None:
+                unknown = True
+                break
+            if g:
+                chosen = case
+                break
+        if unknown:
+            break
+        if chosen is None:
+            continue
+        body_src = " ".join(ast.unparse(s) for s in chosen.body)
+        skips = all(isinstance(s, (ast.Continue, ast.Pass)) for s in chosen.body)
+        if not skips:
+            bad.append((w, chosen))
+    if unknown:
+        run.ob("C01.ws", "_JSONParser:whitespace-tables-agree", True, evaluated=False, reason="a case guard could not be evaluated: rule skipped")
+        return
+    for w, case in bad[:1]:
+        run.finding("C01.ws", fn, case.body[0], f"the byte {w!r} is inter-document whitespace for the document splitter but the framer's dispatch does not skip it before a document starts: a stream cut between a document and its trailing whitespace frames differently from the uncut stream (spurious parse error / bogus plain value)")
+    run.ob("C01.ws", "_JSONParser:whitespace-tables-agree", not bad, evaluated=True, whitespace=sorted(map(repr, ws)))
+
+
 def run(eng, run):
     run.not_decided += NOT_DECIDED
+    check_ws(eng, run)
     check_scan(eng, run)
     check_rem(eng, run)
     check_inj(eng, run)
@@ -405,4 +490,26 @@ BENIGN = [
     Variant("auto-rename-remainder", _AUTO + ".incremental_deserialize", lambda fn: rename_local(fn, "remainder", "rest"), why="local renamed"),
     Variant("scanner-hoist-seplen", _RU, lambda fn: rename_local(fn, "seplen", "sep_size"), why="local renamed"),
     Variant("consumer-rename-remaining", _CONS, lambda fn: rename_local(fn, "remaining", "leftover"), why="local renamed"),
+]
+
+
+def _drop_ws_case(fn):
+    for m in ast.walk(fn):
+        if isinstance(m, ast.Match):
+            m.cases = [c for c in m.cases if not (isinstance(c.pattern, ast.MatchOr) and any(isinstance(p, ast.MatchValue) and getattr(p.value, "value", None) == b" " for p in c.pattern.patterns))]
+
+
+def _ws_case_first(fn):
+    for m in ast.walk(fn):
+        if isinstance(m, ast.Match):
+            ws = [c for c in m.cases if isinstance(c.pattern, ast.MatchOr) and any(isinstance(p, ast.MatchValue) and getattr(p.value, "value", None) == b" " for p in c.pattern.patterns)]
+            m.cases = ws + [c for c in m.cases if c not in ws]
+
+
+MUTANTS += [
+    Variant("json-framer-whitespace-starts-a-value", "serializers.json:_JSONParser.raw_parse", _drop_ws_case, "C01.ws",
+            why="a stream cut between a document and its trailing newline yields a spurious parse error"),
+]
+BENIGN += [
+    Variant("json-framer-whitespace-case-first", "serializers.json:_JSONParser.raw_parse", _ws_case_first, why="non-overlapping case moved to the front"),
 ]
